@@ -316,6 +316,9 @@ func c08Templates(batch, nbatch int) []*gram.Grammar {
 }
 
 func c08Child(c *mon.Child) {
+	if c.Batch == 0 {
+		c08Static(c)
+	}
 	for _, h := range gram.Registry {
 		key := h.ID
 		if !c.Want(key) {
